@@ -451,6 +451,13 @@ def battery(s, b):
         'copy': lambda: B(copy.copy(s)), 'copy()': lambda: B(s.copy()), 'uintle': lambda: call_name(lambda: s.uintle), 'float': lambda: call_name(lambda: repr(s.float)),
         'tobitarray-use': lambda: tobitarray_use(s), 'tofile': lambda: tofile_bytes(s), 'readlist': lambda: call_name(lambda: ConstBitStream(s).readlist('bool, bits')[0]) if L else None,
     }
+    if L >= 16:
+        W = '0b' + b[:16]
+        obs['findall-bytealigned'] = lambda: (list(s.findall(W, bytealigned=True)), s.find(W, 8, bytealigned=True), s.rfind(W, bytealigned=True), [len(x) for x in s.split(W, bytealigned=True)][:40])
+    if L > 100000:
+        # (observations that cost a Python object per bit or per few bits are left to the ordinary sizes)
+        for k_ in ('cut', 'split', 'iter', 'neg-slices', 'mul', 'index', 'unpack', 'readlist', 'tobitarray-use', 'findall-pat'):
+            obs.pop(k_, None)
     if isinstance(s, ConstBitStream):
         # a stream that is part way through its data, used as an operand: what comes back, and where everybody's position is afterwards
         def with_pos(f):
@@ -642,6 +649,30 @@ def run(ctx):
     if ctx.shard == 0:
         for c in DIRECTED:
             ctx.run_case(judge, dict(c))
+    # files longer than 32 / 64 KiB (offsets on page and allocation boundaries, sync words at the start of every 64 KiB block):
+    # every class x bit numbering x offset, by name and by handle
+    j = 0
+    for cname in util.CLASS_NAMES:
+        for lsb0 in (False, True):
+            for pre in (0, 32768, 65536, 8 * 4096 * 3):
+                for fam in (('file', 'filehandle') if not ctx.quick else ('file' if (pre // 8 + lsb0) % 2 else 'filehandle',)):
+                    j += 1
+                    if not ctx.mine(j):
+                        continue
+                    rng = ctx.rng
+                    block = 65536
+                    nbytes = block * rng.choice([1, 2]) + rng.choice([2, 9, 100])
+                    sync = '0100011100000000'
+                    body = ['0'] * (8 * nbytes)
+                    for k in range(0, nbytes - 2, block):
+                        body[8 * k:8 * k + 16] = list(sync)
+                    if rng.random() < 0.5:
+                        body[8 * (block - 1):8 * (block - 1) + 16] = list(sync)          # one lying across the block edge
+                    body[-24:-8] = list(sync)
+                    bits = ''.join(body)[pre:] if pre else ''.join(body)
+                    route = {'family': fam, 'pre': pre, 'lenmode': rng.choice(['none', 'whole', 'none']), 'post': 0, 'give_offset': bool(pre) or rng.random() < 0.5}
+                    c = {'cls': cname, 'bits': bits, 'route': route, 'lsb0': lsb0, 'salt': rng.getrandbits(32), 'mutators': rng.sample(list(MUTATORS), 2), 'big': True}
+                    ctx.run_case(judge, c)
     n = ctx.scale(12000, 150000)
     for i in range(n):
         c = gen_case(ctx)
